@@ -17,4 +17,4 @@ def run(ck):
               "(exactly as many victims as needed, expired before live, live victims = LRU tail) computed from dumps before/after; entry and trigger-link counts equal the model's; shared-memory fill/clear/refill cycles "
               "with value sizes up to a third of the segment check conservation of free memory. non-trivial = distinct model states reached",
               "ops", "states", min_evals=100000,
-              required_nonzero=("evictions", "evictions_expired", "evictions_lru", "conservation_checks", "stores_under_memory_pressure", "dumps"))
+              required_nonzero=("fetch_partial_outputs", "evictions", "evictions_expired", "evictions_lru", "conservation_checks", "stores_under_memory_pressure", "dumps"))
